@@ -8,7 +8,9 @@
    file-system faults that make main panic, and panics inside the work step are runtime behaviour the
    protocol model does not exhibit; those are monitored on the implementation (scheduler shim). *)
 From Coq Require Import List Arith.
-From Ruler Require Import Bytes RuleSyntax TopoSort Protocol ProtocolFacts ProtocolPlan.
+From Ruler Require Import Bytes AList RuleSyntax TopoSort World Cmdlang Work Build Ops Inv BuildSpec Ideal InvFacts C01Hist C01Facts
+     Sched SchedBasic SchedFacts Fine FineBasic FineFacts.
+From Ruler Require Import Protocol ProtocolFacts ProtocolPlan.
 Local Close Scope N_scope.
 Local Open Scope nat_scope.
 
@@ -46,4 +48,25 @@ Theorem C05_maximal_run_finished : forall g evs s, wf_graph g ->
   run_events g (init_pstate g) evs = Some s -> (forall ev, pstep g s ev = None) -> finished g s = true.
 Proof. exact c05_maximal_run_finished. Qed.
 
+(* ------------------------------------------------------------------------------------------------------
+   AT THE GRANULARITY OF THE CACHE OPERATIONS (Model/Fine.v, round 2): every step of every worker strictly decreases
+   a measure (so every run is finite: no livelock between threads competing for cache entries); in every state a
+   run reaches in which some worker is not done, some worker can move (no deadlock); every run can be completed. *)
+Theorem C05_fine_step_decreases : forall pack blobs hists (st : fnstate sym) k st',
+  fstep sym_eqb SContent SList pack blobs hists st k = Some st' ->
+  fmeasure sym pack blobs st' < fmeasure sym pack blobs st.
+Proof. exact build_fine_step_decreases_sym. Qed.
+
+Theorem C05_fine_no_deadlock : forall (w1 w0 : world sym) rp goal pack blobs hists ch,
+  get_nodes sym w1 rp goal = Ok pack ->
+  let st := frun sym_eqb SContent SList pack blobs hists ch (fn_init sym w0 pack) in
+  all_done st = false -> exists k, fstep sym_eqb SContent SList pack blobs hists st k <> None.
+Proof. exact build_fine_no_deadlock_sym. Qed.
+
+Theorem C05_fine_every_run_can_be_completed : forall (w1 w0 : world sym) rp goal pack blobs hists ch,
+  get_nodes sym w1 rp goal = Ok pack ->
+  exists ch', all_done (frun sym_eqb SContent SList pack blobs hists (ch ++ ch') (fn_init sym w0 pack)) = true.
+Proof. exact build_fine_completable_sym. Qed.
+
 Check C05_deadlock_free.
+Check C05_fine_no_deadlock.
